@@ -1221,6 +1221,160 @@ def oracle2d(ctx, budget, stats=None):
     return found
 
 
+# ------------------------------------------------------------------ 2-D eigendecomposition path (num_eigens set): oracle
+EIGEN_2D = ['asls', 'airpls', 'arpls', 'iarpls', 'psalsa', 'brpls', 'lsrpls']
+EIG_TOL = 3.0e-9        # normwise backward error of the reduced system; unchanged tree <= 1.2e-10 over 800 thorough runs
+EIG_SPAN_TOL = 1.0e-2   # distance from span(U_r (x) U_c); unchanged tree <= 9e-5 (d=4 on a 260-point axis)
+EIG_TERM_C = 32.0       # |lam Sigma (impl) - lam Sigma (independent)| <= C eps (lam_r 4^d_r + lam_c 4^d_c); unchanged <= 0.5
+_EIG_CACHE = {}
+
+
+def indep_basis(n, d, g):
+    """Independent dense eigensolver: orthonormal basis of the g smallest eigenvectors of D'D
+    (D = np.diff(np.eye(n), d, axis=0)) and the exact projected penalty U'(D'D)U = (DU)'(DU)."""
+    key = (n, d)
+    if key not in _EIG_CACHE:
+        # through the SVD of D itself (not of D'D): the small eigenvalues sigma^2 keep their relative accuracy
+        D = np.diff(np.eye(n), d, axis=0)
+        _, sv, Vt = np.linalg.svd(D, full_matrices=True)
+        order = np.concatenate((np.arange(n - d, n), np.arange(n - d - 1, -1, -1)))   # null space first, then ascending
+        vecs = Vt[order].T
+        vals = np.concatenate((np.zeros(d), sv[::-1] ** 2))
+        if len(_EIG_CACHE) > 60:
+            _EIG_CACHE.clear()
+        _EIG_CACHE[key] = (vecs, vals, D)
+    vecs, vals, D = _EIG_CACHE[key]
+    U = vecs[:, :g]
+    DU = D @ U
+    return U, DU.T @ DU, vals
+
+
+def eigen_case(case):
+    """Single solve (max_iter=0, tol=inf, user weights) of a 2-D method with num_eigens set, certified against
+    the documented reduced system written rotation-invariantly as the Galerkin system on span(U_r (x) U_c):
+        B'(W + lam_r D_r'D_r (x) I + lam_c I (x) D_c'D_c) B c = B' W y,   baseline = B c,
+    (= (B'WB + lam_r Sigma_r (x) I + lam_c I (x) Sigma_c) c = B'W y for exact eigenvectors).
+    Certificate: normwise backward error of c = B'v in that system, and the distance of v from span(B).
+    Returns (max of the two, info) or None."""
+    method, M, N = case['method'], case['M'], case['N']
+    d, lam, g = tuple(case['d']), tuple(case['lam']), tuple(case['num_eigens'])
+    y = np.array(case['y'], dtype=float).reshape(M, N)
+    w = np.array(case['w0'], dtype=float).reshape(M, N)
+    from pybaselines import Baseline2D
+    f = Baseline2D(np.arange(M, dtype=float), np.arange(N, dtype=float), check_finite=False, assume_sorted=True)
+    kw = dict(lam=lam, diff_order=d, weights=w, max_iter=0, tol=np.inf)
+    if not case.get('default_eigens'):
+        kw['num_eigens'] = g
+    import pybaselines.two_d._whittaker_utils as wu
+    seen = []
+    orig_solve = wu.WhittakerSystem2D.solve
+
+    def spy(self_, *a, **k):
+        if self_._using_svd:
+            seen.append((np.array(self_.penalty, dtype=float, copy=True), tuple(int(v) for v in self_._num_bases)))
+        return orig_solve(self_, *a, **k)
+
+    wu.WhittakerSystem2D.solve = spy
+    try:
+        with warnings.catch_warnings(), np.errstate(all='ignore'):
+            warnings.simplefilter('ignore')
+            base, par = getattr(f, method)(y, **kw)
+    except Exception:  # noqa
+        return None
+    finally:
+        wu.WhittakerSystem2D.solve = orig_solve
+    if not np.all(np.isfinite(base)):
+        return None
+    Ur, Sr, vr = indep_basis(M, d[0], g[0])
+    Uc, Sc, vc = indep_basis(N, d[1], g[1])
+    # a truncation inside a cluster of (numerically) equal eigenvalues would make the subspace ill-defined
+    for vals, gg, dd in ((vr, g[0], d[0]), (vc, g[1], d[1])):
+        if gg < len(vals) and (gg <= dd or vals[gg] - vals[gg - 1] <= 1e-6 * vals[gg]):
+            return None
+    gr, gc = g
+    # B'WB through the Kronecker structure: F[(a,b),(a',b')] = sum_ij Ur[i,a] Ur[i,a'] W[i,j] Uc[j,b] Uc[j,b']
+    F = np.einsum('ia,ic,ij,jb,jd->abcd', Ur, Ur, w, Uc, Uc, optimize=True).reshape(gr * gc, gr * gc)
+    Pen = lam[0] * np.kron(Sr, np.eye(gc)) + lam[1] * np.kron(np.eye(gr), Sc)
+    rhs = (Ur.T @ (w * y) @ Uc).ravel()
+    A = F + Pen
+    c = (Ur.T @ base @ Uc).ravel()                      # coordinates of the returned baseline in the independent basis
+    back = Ur @ c.reshape(gr, gc) @ Uc.T
+    scale = np.abs(base).max()
+    if scale == 0:
+        return None
+    span = float(np.abs(base - back).max() / scale)      # the baseline must lie in span(U_r (x) U_c)
+    r = A @ c - rhs
+    den = np.abs(A).sum(axis=1).max() * np.abs(c).max() + np.abs(rhs).max()
+    eta = float(np.abs(r).max() / den) if den > 0 else 0.0
+    rowden = np.abs(A) @ np.abs(c) + np.abs(rhs)
+    case['_cw'] = float((np.abs(r) / np.where(rowden > 0, rowden, 1)).max())
+    # the lam * Sigma term of the documented reduced system, as the implementation holds it at the solve
+    term = 0.0
+    if seen and seen[0][1] == (gr, gc) and seen[0][0].shape == (gr * gc,):
+        doc_pen = np.repeat(lam[0] * vr[:gr], gc) + np.tile(lam[1] * vc[:gc], gr)
+        tol_pen = EIG_TERM_C * EPS * (lam[0] * 4.0 ** d[0] + lam[1] * 4.0 ** d[1])
+        term = float(np.abs(seen[0][0] - doc_pen).max() / tol_pen)
+    elif seen:
+        term = float('inf')
+    case['_parts'] = (eta, span, term)
+    verdict = max(eta / EIG_TOL, span / EIG_SPAN_TOL, term)
+    return verdict, (f'num_eigens={"default" if case.get("default_eigens") else g}, backward error {eta:.2e} (limit {EIG_TOL:g}), '
+                     f'out-of-span {span:.2e} (limit {EIG_SPAN_TOL:g}), '
+                     f'eigenvalue-term error {term:.2f} x its limit {EIG_TERM_C}*eps*(lam_r 4^d_r + lam_c 4^d_c)')
+
+
+def oracle2d_eigen(ctx, budget, stats=None):
+    rng = ctx.rng
+    found = 0
+    long_axes = {2: ctx.n([1600], [700, 1600, 2000]), 3: ctx.n([320], [320, 500]), 4: ctx.n([200], [200, 260])}
+    for run_i in range(ctx.n(120, 600) * budget):
+        method = EIGEN_2D[run_i % len(EIGEN_2D)]
+        kind = rng.choice(['small', 'small', 'long', 'long', 'default'])
+        dr, dc = rng.choice([1, 2, 2, 3]), rng.choice([1, 2, 2, 3])
+        default = False
+        if kind == 'long':
+            dl = rng.choice([2, 3, 3, 4])
+            L, S_ = rng.choice(long_axes[dl]), rng.randint(6, 10)
+            ds = rng.choice([1, 2])
+            if rng.random() < 0.5:
+                M, N, dr, dc = L, S_, dl, ds
+            else:
+                M, N, dr, dc = S_, L, ds, dl
+            g = (rng.randint(dr + 2, 12), rng.randint(dc + 1, min(N, 6))) if M == L else (rng.randint(dr + 1, min(M, 6)), rng.randint(dc + 2, 12))
+            lam = [10 ** rng.uniform(4, 8), 10 ** rng.uniform(4, 8)]
+        elif kind == 'default':
+            M, N = rng.randint(12, 40), rng.randint(12, 40)
+            g, default = (10, 10), True
+            lam = [10 ** rng.uniform(-1, 7), 10 ** rng.uniform(-1, 7)]
+        else:
+            M, N = rng.randint(dr + 3, 30), rng.randint(dc + 3, 30)
+            g = (rng.randint(dr + 1, min(M, 12)), rng.randint(dc + 1, min(N, 12)))
+            lam = [10 ** rng.uniform(-1, 8), 10 ** rng.uniform(-1, 8)]
+        nrng = np.random.default_rng(rng.getrandbits(32))
+        t1, t2 = np.meshgrid(np.linspace(0, 1, M), np.linspace(0, 1, N), indexing='ij')
+        y = (2 + 3 * t1 + 2 * t2 + t1 * t2 + 20 * np.exp(-0.5 * (((t1 - 0.5) / 0.15) ** 2 + ((t2 - 0.4) / 0.2) ** 2))
+             + nrng.normal(0, 0.2, (M, N)))
+        w = nrng.uniform(0.1, 1.0, (M, N))
+        case = {'kind': 'eigen2d', 'method': method, 'M': M, 'N': N, 'd': [dr, dc], 'lam': lam, 'num_eigens': list(g),
+                'default_eigens': default, 'y': [float(v) for v in y.ravel()], 'w0': [float(v) for v in w.ravel()]}
+        res = eigen_case(case)
+        ctx.case(('eigen2d', method, M, N, dr, dc, tuple(g), run_i), nontrivial=res is not None,
+                 kind=f'oracle2d-eigen:{kind}:{"checked" if res is not None else "skipped"}')
+        if res is None:
+            continue
+        rel, info = res
+        if stats is not None:
+            stats.append((rel, method, M, N, dr, dc, tuple(g), lam, kind))
+        if not (rel <= 1.0):
+            found += 1
+            small = {k: v for k, v in case.items() if k not in ('y', 'w0')} if M * N > 4000 else case
+            small = dict(small, seed_note='data regenerated from VERIF_SEED when omitted')
+            ctx.fail(f'eigen2d:{method}:{"long-axis" if kind == "long" else "grid"}',
+                     f'2-D {method} ({M}x{N}, diff_order=({dr},{dc}), lam=({lam[0]:.3g},{lam[1]:.3g}), {info}, max_iter=0): the returned '
+                     f'baseline does not solve the documented reduced (eigen-basis) system (worst ratio to its limit {rel:.3g})', small)
+    return found
+
+
 BRPLS_KEY = 'returned-pair:brpls:first-pass-early-exit-returns-data'
 BRPLS_WITNESS = {'kind': 'oracle', 'method': 'brpls', 'N': 3, 'd': 1, 'lam': 100.0, 'bs': 2, 'hp': False, 'extra': 0,
                  'y': [5.17478765233889, 25.080956802604167, 15.066639056671212], 'w0': None, 'a0': None,
@@ -1280,12 +1434,14 @@ def run(ctx):
     found = oracle_runs(ctx, budget)
     found += oracle_single(ctx, budget)
     found += oracle2d(ctx, budget)
+    found += oracle2d_eigen(ctx, budget)
     ctx.note(f'{ncap} 1-D and {ncap2} 2-D captured runs compared exactly inside Coq; residual-certificate oracle budget x{budget}: {found} failing checks; '
              'utils.whittaker_smooth: theorem + exact tie + residual oracle; mpls/fabc(weights_as_mask)/rubberband/peak_filling: exact tie through the '
              'asls model with the reported weights/mask + captured-call oracle; custom_bc(lam)/jbcd: captured-call oracle only (lhs entrywise, '
              'solver residual, returned array = solver output; their right-hand sides are not re-derived); '
              '2-D: num_eigens=None path of all ten methods (theorems, exact spsolve-input tie on small grids, residual oracle); '
-             'NOT covered: the 2-D eigendecomposition path (C20), non-integer eta in the Coq tie (eta=1/4,1/2 only through the oracle), '
+             '2-D eigendecomposition path (num_eigens set): oracle only (reduced-system backward error, span, lam*Sigma term vs an independent SVD-based eigensolver, long axes); '
+             'NOT covered: non-integer eta in the Coq tie (eta=1/4,1/2 only through the oracle), '
              'passes >= 2 of methods other than asls/iasls in the Coq tie (non-dyadic weights; covered by the oracle)')
 
 
@@ -1302,6 +1458,14 @@ def replay(rep):
     if kind == 'oracle2d':
         bad = [(w, e) for (w, e, n, _) in oracle2d_case(case) if not (e <= BOUND_C * n * EPS)]
         print('replay oracle2d:', bad or 'property holds on this input')
+        return 1 if bad else 0
+    if kind == 'eigen2d':
+        if 'y' not in case:
+            print('replay eigen2d: data too large to store; re-run the check with the recorded seed')
+            return 1
+        res = eigen_case(case)
+        bad = res is not None and not (res[0] <= 1.0)
+        print('replay eigen2d:', res if bad else 'property holds on this input')
         return 1 if bad else 0
     if kind == 'single':
         bad = [(w, msg) for (w, msg) in single_case(case) if msg is not None]
